@@ -520,6 +520,23 @@ func stringsIntrinsic(name string, fn *ssa.Function) intrinsicFn {
 			}
 			return nil
 		}
+	case "fmt.Fprintf":
+		return func(x *Exec, _ *ssa.Function, a []Value) Value {
+			s := x.sprintf(x.strOf(a[1]), x.sliceElems(a[2].(*SliceV)))
+			return x.invoke(a[0], "Write", x.byteSlice(x.toStrV(s).B))
+		}
+	case "fmt.Fprint":
+		return func(x *Exec, _ *ssa.Function, a []Value) Value {
+			out := &StrV{}
+			for _, e := range x.sliceElems(a[1].(*SliceV)) {
+				x.fmtValue(out, 'v', e)
+			}
+			return x.invoke(a[0], "Write", x.byteSlice(out.B))
+		}
+	case "net/http.NewResponseController":
+		return func(x *Exec, f *ssa.Function, a []Value) Value { return (*Pointer)(nil) }
+	case "(*net/http.ResponseController).Flush":
+		return func(x *Exec, f *ssa.Function, a []Value) Value { return nilErr }
 	case "net/http.Error":
 		return func(x *Exec, _ *ssa.Function, a []Value) Value {
 			h := x.invoke(a[0], "Header")
